@@ -69,6 +69,11 @@ def prepare(hist, tmp, tag, base_root=None, base_ctx=None):
                          % (type(e).__name__, str(e)[:160], where), None))
         return ctx, viol
     ctx.rr = rr
+    if getattr(rr, 'returned_despite_fault', None):
+        k_, ev_ = rr.returned_despite_fault
+        viol.append(('C01:returned-despite-fault', 'tpc_finish of transaction %d returned normally although its raw '
+                     'operation %s failed (EIO/ENOSPC): a returned commit must be durable' % (k_, ev_), None))
+    ctx.no_model = getattr(rr, 'no_model', False)
     for when, what in rr.live_violations[:3]:
         viol.append(('C01:live-read-shows-uncommitted', 'a read through the running storage %s does not show the '
                      'committed state (an unfinished or aborted transaction must be absent in full): %s'
@@ -202,6 +207,10 @@ def enumerate_cuts(ctx, rng, tier, limit=None):
                     cuts.append(c)
                 else:
                     interior.append(c)
+        if e is not None and e[0] == 'write' and e[1].endswith('.index_tmp') and len(e[3]) > 2:
+            # crash while the index is being saved
+            for nb in sorted({1, len(e[3]) // 2, len(e[3]) - 1}):
+                cuts.append((k, nb, False, returned, (ci, off)))
         if e is not None and e[0] == 'mark' and e[1].startswith('ret finish'):
             returned += 1
     if interior:
@@ -225,15 +234,22 @@ def cut_images(ctx, cuts):
             vfs.apply_events(img, [evs[ki]])
             ki += 1
         data = img.get('Data.fs', b'')
+        torn_side = None
         if nb is not None:
             e = evs[k]
-            tmp = {'Data.fs': data}
+            tmp = {e[1]: img.get(e[1], b'')}
             vfs.apply_events(tmp, [e], nbytes_last=nb)
-            data = tmp['Data.fs']
+            if e[1] == 'Data.fs':
+                data = tmp['Data.fs']
+            else:
+                torn_side = (e[1], tmp[e[1]])
         side = None
-        if getattr(ctx, 'keep_side', False):
-            side = {n: b for n, b in img.items() if b is not None and not n.endswith('/')
-                    and n not in ('Data.fs', 'Data.fs.lock', 'Data.fs.tmp')}
+        if getattr(ctx, 'keep_side', False) or nb is None or torn_side:
+            # everything else that is in the directory at that moment (the lock file apart)
+            side = {n: b for n, b in img.items() if b is not None and not n.endswith('/') and '/' not in n
+                    and n not in ('Data.fs', 'Data.fs.lock')}
+            if torn_side:
+                side[torn_side[0]] = torn_side[1]
         yield c, data, img.get('Data.fs.index'), side
 
 
@@ -252,7 +268,7 @@ def _workdir():
 def judge(task):
     """task = (cut, data, index, with_index).  Returns (cut, violation|None, observation)"""
     ctx = CTX
-    cut, data, index, with_index, side = task
+    cut, data, index, with_index, side, extra = task
     returned = cut[3]
     wd = _workdir()
     obs = {}
@@ -362,20 +378,68 @@ def judge(task):
         if files.get('Data.fs.tr0') != b'tail saved by an earlier recovery' or \
                 files.get('Data.fs.tr1') != b'FS30 and another one':
             return cut, ('C01:earlier-tr-file-overwritten', 'the recovery overwrote the dump of an earlier recovery'), obs
-    # (e) second crash of the same data file: all side files of the first recovery are still there
-    if side is not None:
+    # (e) all side files of that moment are still there (second crash of the same data file: the dumps
+    #     of the first recovery; crash while the index is being saved: a partial .index_tmp; .tmp; index)
+    if side is not None and (getattr(ctx, 'keep_side', False) or set(side) - {'Data.fs.index', 'Data.fs.tmp'}
+                             or with_index):
+        second = getattr(ctx, 'keep_side', False)
         files = dict(side)
         files['Data.fs'] = data
         L.write_dir(wd, files)
         d5, err = L.open_and_dump(wd, ctx.oids, ctx.tids)
         if d5 is None:
-            return cut, ('C01:open-raised:second-crash', 'crash, reopen (recovery), more commits, crash again: the '
-                         'second reopen in the same directory (side files %s) raised %s' % (sorted(side), err)), obs
+            return cut, ('C01:open-raised:second-crash' if second else 'C01:open-raised:with-side-files',
+                         '%sreopen in the directory as the crash left it (side files %s) raised %s'
+                         % ('crash, reopen (recovery), more commits, crash again: the second ' if second else '',
+                            sorted(side), err)), obs
         n5, v = match(d5, 'writable')
         if v or n5 != n:
-            return cut, ('C01:second-crash-differs', 'second reopen in the same directory (side files %s) shows %s, '
+            return cut, ('C01:second-crash-differs' if second else 'C01:side-files-change-state',
+                         'reopen in the directory as the crash left it (side files %s) shows %s, '
                          'Data.fs alone %d transactions' % (sorted(side), v[1][:200] if v else n5, n)), obs
-        obs['second_crash'] = True
+        if second:
+            obs['second_crash'] = True
+    if extra:
+        # (f) other ways to open the same image: ZODB.config section, quota=, blob_dir=
+        from ZODB.FileStorage import FileStorage
+        for opts in (dict(via='config', quota=10 ** 9, blob_dir=True), dict(via='direct', quota=len(data) + 10, blob_dir=False)):
+            L.write_dir(wd, {'Data.fs': data})
+            try:
+                fs = L.open_storage(os.path.join(wd, 'Data.fs'), opts)
+            except Exception as e:
+                return cut, ('C01:open-raised:options', 'reopening the crash image with %s raised %s %s'
+                             % (opts, L.ename(e), str(e)[:160])), obs
+            try:
+                d6 = L.dump_storage(fs, ctx.oids, ctx.tids)
+            finally:
+                fs.close()
+            n6, v = match(d6, 'writable')
+            if v or n6 != n:
+                return cut, ('C01:options-change-state', 'reopen with %s shows %s, the plain constructor %d transactions'
+                             % (opts, v[1][:200] if v else n6, n)), obs
+        # (g) copying the crash image (opened read-only) into a new storage yields the same prefix
+        L.write_dir(wd, {'Data.fs': data})
+        try:
+            src = FileStorage(os.path.join(wd, 'Data.fs'), read_only=True)
+            dst = FileStorage(os.path.join(wd, 'Copy.fs'))
+            try:
+                dst.copyTransactionsFrom(src)
+                d7 = L.dump_storage(dst, ctx.oids, ctx.tids)
+            finally:
+                dst.close()
+                src.close()
+        except Exception as e:
+            return cut, ('C01:copy-of-crash-image-raised', 'copyTransactionsFrom(read-only crash image) raised %s %s'
+                         % (L.ename(e), str(e)[:160])), obs
+        keys = [k for k in d7 if k.split()[0] in ('iterator', 'load', 'loadBefore', 'loadSerial', 'lastTransaction',
+                                                  'len', 'maxoid', 'iterator_start', 'record_iternext')]
+        want = ctx.ref_dumps[n]
+        bad = [k for k in keys if d7.get(k) != want.get(k)]
+        if bad:
+            return cut, ('C01:copy-of-crash-image-differs', 'a copy of the crash image (copyTransactionsFrom) does not '
+                         'show prefix n=%d: %s: got %s, prefix has %s' % (n, bad[0], str(d7.get(bad[0]))[:150],
+                                                                           str(want.get(bad[0]))[:150])), obs
+        obs['extra'] = True
     return cut, None, obs
 
 
@@ -393,7 +457,8 @@ def check_history(hist, ck, tag, pool_size, rng, tier, limit=None, stop_early=Fa
         return res
     cuts = enumerate_cuts(ctx, rng, tier, limit)
     CTX = ctx
-    tasks = ((c, data, index, (i % 3 == 0) or tier == 'thorough', side)
+    tasks = ((c, data, index, (i % 3 == 0) or tier == 'thorough', side,
+              (i % 8 == 1) if tier == 'quick' else (i % 4 == 1))
              for i, (c, data, index, side) in enumerate(cut_images(ctx, cuts)))
     results = []
     if pool_size > 1 and len(cuts) > 64:
@@ -417,7 +482,7 @@ def check_history(hist, ck, tag, pool_size, rng, tier, limit=None, stop_early=Fa
                 seen_sig.add(ks)
                 res['violations'].append((ks, kw, [cut[0], cut[1]]))
     res['results'] = results
-    if base_root is not None:
+    if base_root is not None or getattr(ctx, 'no_model', False):
         return res
     # model lines
     try:
@@ -547,7 +612,7 @@ def fsync_fault(hist, ck, tag):
     if rr.fsync_fault is None:
         return None                      # the transaction did not get as far as tpc_finish
     ck.count('fsync-fault:' + rr.fsync_fault)
-    if rr.fsync_fault.startswith('raised') and len(rr.final) <= 20000:
+    if rr.fsync_fault.startswith('raised') and len(rr.final) <= 20000 and not getattr(rr, 'no_model', False):
         try:
             lines, checks, _ = L.model_lines_for_run(hist, rr)
             FSYNC_MODEL.append((hist, lines, checks))
@@ -683,16 +748,19 @@ def main(argv=None):
     else:
         hists += load_corpus()
         if tier == 'quick':
-            profiles = ['small'] * 7 + ['big', 'meta', 'small']
+            profiles = ['small'] * 4 + ['wide'] * 3 + ['big', 'meta', 'wide']
         else:
-            profiles = (['small'] * 8 + ['big', 'meta']) * 11
+            profiles = (['small'] * 5 + ['wide'] * 3 + ['big', 'meta']) * 11
+        hists += L.boundary_histories()
         for i, p in enumerate(profiles):
-            hists.append(('gen%d-%s' % (i, p), L.gen_history(ck.rng, p)))
+            hists.append(('gen%d-%s' % (i, p), L.gen_wide_history(ck.rng) if p == 'wide' else L.gen_history(ck.rng, p)))
     all_lines, expectations = [], []
     for hi, (name, hist) in enumerate(hists):
         limit = None
         if tier == 'quick':
-            limit = 700 if len(hists) <= 14 else 500
+            limit = 600 if len(hists) <= 18 else 450
+        if name.startswith('boundary-'):
+            limit = (120 if tier == 'quick' else 600) if name != 'boundary-empty' else limit
         res = check_history(hist, ck, 'h%d' % hi, pool, ck.rng, tier, limit)
         ctx = res['ctx']
         for t in hist:
